@@ -997,6 +997,16 @@ func (e *engine) opEVM(s, mi, hsel, variant int) {
 	t := &importTx{src: ch.ID, height: height, extra: extra, signers: []common.Address{outsider(2)}}
 	if ok, why := e.sourceGate(ch.ID); !ok {
 		t.proof = []byte("{}")
+		if isEVM(ch.Router) && e.genesis[s] {
+			// submit the proof that would be valid, so that the gate is the only obstacle
+			t.proof = e.chainOf(s).proofJSON(mi)
+			if v, _, _ := e.finalize(ch.ID, ch.Router, m); v == oAccept && hclass == "" {
+				why += ":otherwise-valid"
+				if e.f == fC21 {
+					e.ctx.NonTrivial()
+				}
+			}
+		}
 		e.submit(t, oReject, why, nil, nil, ch.Router)
 		return
 	}
@@ -1076,6 +1086,16 @@ func (e *engine) run() {
 			default:
 				e.opVoteToQuorum(s, mi, op.H, op.V)
 			}
+		case "impat":
+			// one import executed at another height (heights are a free parameter of a transaction here)
+			saved := e.w.Height
+			e.w.Height = heightTable[mod(op.S, len(heightTable))]
+			if isEVM(e.c.Chains[s].Router) {
+				e.opEVM(s, mi, op.H, op.X)
+			} else {
+				e.opVoteToQuorum(s, mi, op.H, op.V)
+			}
+			e.w.Height = saved
 		case "blk":
 			e.w.NextBlock()
 			e.acceptedInBlock = 0
